@@ -183,6 +183,24 @@ Section Inv.
     P (lift s o k).
   Proof. intros A P s o k H1 H2 H3 H4. destruct o; cbn [lift]; auto. Qed.
 
+  Lemma write_indexed_Rdecl : forall s x f, Rdecl s (fst (write_indexed sat s x f)).
+  Proof.
+    intros s x f. unfold write_indexed. destruct (lookup s x) as [[t old]|]; [|apply Rdecl_refl].
+    destruct (f (force_seq old)) as [nv| | |]; cbn [fst]; try apply set_val_Rdecl.
+    destruct (is_type sat t nv) as [[|]| | |]; cbn [fst];
+      (eapply Rdecl_trans; [apply set_val_Rdecl|apply set_val_Rdecl]).
+  Qed.
+  (* an indexed / sliced write that completes has passed the late check, for every declared type *)
+  Lemma write_indexed_established : forall s x f s',
+    write_indexed sat s x f = (s', Ok tt) -> established x s s'.
+  Proof.
+    intros s x f s' H. unfold write_indexed in H. destruct (lookup s x) as [[t old]|] eqn:E; [|discriminate].
+    destruct (f (force_seq old)) as [nv| | |]; try discriminate.
+    destruct (is_type sat t nv) as [[|]| | |] eqn:Et; try discriminate. injection H as <-.
+    intros T w Hl. rewrite E in Hl. injection Hl as <- <-. exists nv. split; [|exact Et].
+    eapply lookup_set_val_same. eapply lookup_set_val_same. eauto.
+  Qed.
+
   (* no statement changes a declared type, whatever its outcome *)
   Theorem stmt_keeps_types : forall st s, Rdecl s (fst (run_stmt sat inexact binop st s)).
   Proof.
@@ -204,9 +222,15 @@ Section Inv.
       pose proof (assign_var_Rty s x b) as Hr.
       destruct (assign_var sat s x b) as [s1 [[]| | |]]; cbn [andthen fst] in *; try (apply Rty_Rdecl; exact Hr).
       eapply Rdecl_trans; [apply Rty_Rdecl; exact Hr|apply Rty_Rdecl, assign_var_Rty].
-    - unfold set_index. destruct (lookup s x) as [[t [| | |l| | | | | | |]]|]; try apply Rdecl_refl.
-      destruct (py_pos _ _); [|apply Rdecl_refl].
-      destruct (is_type sat t _) as [[|]| | |]; cbn [fst]; apply set_val_Rdecl.
+    - apply write_indexed_Rdecl.
+    - apply write_indexed_Rdecl.
+    - unfold op_index. destruct (lookup s x) as [[t old]|] eqn:E; [|apply Rdecl_refl].
+      apply lift_cases; cbn [fst]; try (intros; apply Rdecl_refl). intros e _.
+      apply lift_cases; cbn [fst]; try (intros; apply set_val_Rdecl). intros d _.
+      apply lift_cases; cbn [fst];
+        try (intros; eapply Rdecl_trans; [apply set_val_Rdecl|apply set_val_Rdecl]).
+      intros r _. eapply Rdecl_trans; [apply set_val_Rdecl|].
+      eapply Rdecl_trans; [apply set_val_Rdecl|apply write_indexed_Rdecl].
   Qed.
 
   (* a statement that completes leaves every variable it wrote inside its declared type *)
@@ -253,12 +277,15 @@ Section Inv.
         exists b. split; [eapply lookup_set_val_same; eauto|exact Ht1].
       + eapply then_established; [exact Hr1|]. intros T w Hl. rewrite Hx2 in Hl. injection Hl as <- <-.
         exists a. split; [eapply lookup_set_val_same; eauto|exact Ht2].
-    - destruct Hin as [<-|[]]. unfold set_index in H.
-      destruct (lookup s x0) as [[t [| | |l| | | | | | |]]|] eqn:E; try discriminate.
-      destruct (py_pos _ _) as [k|]; [|discriminate].
-      destruct (is_type sat t _) as [[|]| | |] eqn:Et; try discriminate. injection H as <-.
-      intros T w Hl. rewrite E in Hl. injection Hl as <- <-. eexists. split; [|exact Et].
-      eapply lookup_set_val_same; eauto.
+    - destruct Hin as [<-|[]]. eapply write_indexed_established; eauto.
+    - destruct Hin as [<-|[]]. eapply write_indexed_established; eauto.
+    - destruct Hin as [<-|[]]. unfold op_index in H. destruct (lookup s x0) as [[t old]|] eqn:E; [|discriminate].
+      destruct (read_elem old i) as [e| | |]; cbn [lift] in H; try discriminate.
+      destruct (drop_elem (force_seq old) i) as [d| | |]; cbn [lift] in H; try discriminate.
+      destruct (binop op e v) as [r| | |]; cbn [lift] in H; try discriminate.
+      apply write_indexed_established in H.
+      intros T w Hl. rewrite E in Hl. injection Hl as <- <-. eapply H.
+      eapply lookup_set_val_same. eapply lookup_set_val_same. eauto.
   Qed.
 
   (* the annotation invariant, over histories: whatever statements ran before and whether they
